@@ -179,13 +179,17 @@ PROPS = {
     ),
     "C15": dict(
         title="FROST: any qualifying signer set signs validly; bad shares are rejected",
-        verus=[("frost_lists", 60, "quick")], kani=[],
+        verus=[(u, 60, "quick") for u in ("frost_lists", "frost_coord", "frost_sign", "frost_cmp", "frost_cmp56", "frost_helpers", "frost_vss", "frost_lagrange",
+                                          "frost_vshare", "frost_binding", "frost_split", "frost_complete", "frost_wire_p256", "frost_wire_ed25519", "frost_wire_ed448")],
+        kani=[],
         cases=["frost_*_protocol", "frost_*_corrupt", "frost_*_wire", "frost_*_decode_total"],
-        level_text="The list wire formats are proved by Verus on the text of macro define_frost_core (metavariable-free, shared verbatim by the five ciphersuites), for every byte string and every encoded length: VSSElement::decode_list returns a list exactly when the buffer splits into at least two point encodings that all decode, and the list then holds the decoded points in order; Commitment::decode_list returns a list exactly when the buffer splits into at least two commitment encodings that all decode and whose signer identifiers are strictly increasing as integers (sorted, no duplicate), and the list then holds the decoded commitments in order. Everything else in the statement (trusted split, share verification, the two rounds, aggregate verification under the group key and under the RFC 8032 verifiers, rejection of altered messages): stand-in only (sweep over (t, n), subsets, arrival orders, single-field corruptions, all five suites).",
-        level_note="Point, Scalar, the encoded lengths, point_decode, scalar_cmp_vartime and Commitment::decode are declared (opaque) in the unit; Ordering's derived PartialEq is assumed structural.",
-        assumptions=["per-suite point_decode / scalar_cmp_vartime / Commitment::decode: declared contracts over uninterpreted decoders",
-                     "encoded lengths NE, NS, Commitment::ENC_LEN: any value in 1..=64 / 1..=192 (the five suites use 32, 33, 57 / 98, 96, 171)"],
-        not_reached=["KeySplitter::trusted_split, verify_split, Signer::sign, Coordinator::choose / assemble_signature, verify_signature_share, GroupPublicKey::verify, compute_binding_factors, derive_interpolating_value"],
+        level_text="Proved by Verus on the text of macro define_frost_core (metavariable-free, shared verbatim by the five ciphersuites; Point, Scalar, the encoded lengths, the per-suite codecs and hashes are opaque, so each proof holds for every suite), for all inputs: (wire formats) encode / decode of the eight message and key types are inverse and decode accepts exactly the well-formed strings (zero identifiers / neutral points rejected as documented), encode_list / decode_list of commitments and VSS elements (at least two entries, all decodable, identifiers strictly increasing); the encoded lengths are instantiated for 32/33, 32/32 and 57/57 bytes. (Dealer) KeySplitter::trusted_split returns max_signers shares and min_signers VSS elements such that every share satisfies the Feldman equation pk_i = sum_j i^j C_j - i.e. passes verify_split - and all shares lie on one polynomial whose constant term is the group secret (Horner loop against the power-sum definition); verify_split and derive_group_info compute exactly that equation. (Coordinator) new accepts exactly thresholds >= 2; choose returns exactly min_signers commitments, identifiers strictly increasing, each the first one in arrival order with its identifier, and returns None exactly when fewer than min_signers distinct identifiers are present. (Signer) sign returns a share exactly when the list has >= 2 entries, is strictly sorted, and contains the signer's identifier with exactly the caller's hiding and binding commitments; the share is hiding_nonce + binding_nonce*rho_i + lambda_i*sk_i*c of RFC 9591 section 5.2, with the binding factors (compute_binding_factors: section 4.4 hash inputs), group commitment, Lagrange coefficient (derive_interpolating_value: product formula; its three assert! are unreachable under its documented preconditions) and challenge proved against their definitions; scalar_cmp_vartime is the integer order on canonical values (32- and 56-byte encodings). (Verification) verify_signature_share / inner_verify_signature_share compute the share relation z_i*G = D_i + rho_i*E_i + c*lambda_i*PK_i; GroupPublicKey::verify / verify_esig the Schnorr equation; lemma: a share produced by sign() satisfies the relation checked by verify_signature_share (over declared module axioms of the group). Stand-in only: Coordinator::assemble_signature (closure patterns unsupported by this Verus), the aggregate signature verifying under the group key (needs the Lagrange interpolation identity), agreement with the plain RFC 8032 verifiers, rejection of every single-field corruption (sweep over (t, n), subsets, arrival orders, corruptions, all five suites).",
+        level_note="Scalar / group arithmetic, hashes H1..H5, per-suite codecs and Point::verify_helper_vartime are declared contracts over uninterpreted functions (integers modulo an uninterpreted prime order; a module over them with nine declared axioms); Ordering's derived PartialEq is assumed structural.",
+        assumptions=["scalar field and group: declared operator contracts over uninterpreted ord(), g_add, g_mul with the module axioms listed in spec/frost_vss_spec.vrs and frost_complete.vrs",
+                     "per-suite point_decode/point_encode/scalar_decode/scalar_encode round trips, H1..H5, mulgen, verify_helper_vartime (Schnorr equation): declared",
+                     "Commitment identifiers non-zero (data-type invariant established by every decoder) as a precondition of sign(); vsscomm.len() >= 1 for verify_split, >= 2 for derive_group_info (documented: a VSS commitment has min_signers >= 2 elements)",
+                     "verify_signature_share requires a strictly sorted commitment list (it is the coordinator's own list from choose(); derive_interpolating_value asserts it)"],
+        not_reached=["Coordinator::assemble_signature, SignerPrivateKeyShare::commit / nonce_generate, GroupPrivateKey::sign / sign_seeded"],
     ),
     "C14": dict(
         title="X25519 and X448 compute the RFC 7748 functions on all inputs",
@@ -230,7 +234,7 @@ PROPS = {
     ),
     "C19": dict(
         title="Decoding and verification are total: no panic, hang or out-of-bounds",
-        verus=[("recode_naf", None, "quick"), ("p256_decode", None, "quick"), ("secp256k1_decode", 100, "quick"), ("ed25519_decode", 100, "quick"), ("ed448_decode", 100, "quick"), ("jq255e_codec", None, "quick"), ("jq255s_codec", None, "quick"), ("frost_lists", 60, "quick"), ("gfsecp256k1_codec", 100, "quick"), ("modint_codec", 60, "quick"), ("ed25519_verify", None, "quick"), ("ed448_verify", None, "quick"), ("p256_verify", None, "quick"), ("secp256k1_verify", None, "quick"), ("jq255e_schnorr", None, "quick"), ("jq255s_schnorr", None, "quick"), ("gls254_schnorr", None, "quick")],
+        verus=[("recode_naf", None, "quick"), ("p256_decode", None, "quick"), ("secp256k1_decode", 100, "quick"), ("ed25519_decode", 100, "quick"), ("ed448_decode", 100, "quick"), ("jq255e_codec", None, "quick"), ("jq255s_codec", None, "quick"), ("frost_lists", 60, "quick"), ("frost_vshare", 60, "quick"), ("frost_cmp", 60, "quick"), ("frost_wire_p256", 60, "quick"), ("frost_wire_ed25519", 60, "quick"), ("frost_wire_ed448", 60, "quick"), ("frost_coord", 60, "quick"), ("gfsecp256k1_codec", 100, "quick"), ("modint_codec", 60, "quick"), ("ed25519_verify", None, "quick"), ("ed448_verify", None, "quick"), ("p256_verify", None, "quick"), ("secp256k1_verify", None, "quick"), ("jq255e_schnorr", None, "quick"), ("jq255s_schnorr", None, "quick"), ("gls254_schnorr", None, "quick")],
         kani=[("lms::sha256_m32::k_verify_total", "quick", "full-domain")] + _gf255_k(["k_decode_ct_badlen"]),
         cases=["*_decode_strict", "*_decode_ct", "*_decode_opt", "*_decode_reduce", "*_verify", "ecdsa_verify", "*_ecdh", "lms_sig_corrupt", "modint_split", "gfgen_split",
                "hash_script", "x25519_ladder", "x448_ladder", "frost_*_decode_total", "frost_*_corrupt", "*_verify_helper_vartime", "p256_prepare_truncate_short", "ed25519_trunc", "p256_trunc"],
